@@ -182,7 +182,9 @@ TOKENS = ['', 'x', '-1', '0x', '0x10', '1e999', 'INF', '-INF', 'NaN', 'nan',
           '&#0;', '%41', '0', '1', '2', '28', '29', '99999', '-0', '+5',
           '1_0', '\u0661\u0662', '\xb2', '1\xb9', '\u2462', '\u2075', '\xbd',
           '\u2167', '\uff11\uff12', '\U0001d7d9', '1\u0663', ' 5', '5 ', '+', '-',
-          '0b1', '0o7', '1e2', '1.0', 'true', 'FALSE', 'None', 'null']
+          '0b1', '0o7', '1e2', '1.0', 'true', 'FALSE', 'None', 'null',
+          'uint8\n', 'string\n', 'boolean\n', 'reference\n', 'datetime\n',
+          '5\n', 'TRUE\n', 'instance\n', '\nuint8', 'real32\r', 'sint64\t']
 
 GARBAGE = [
     b'', b' ', b'\x00', b'\xff\xfe\x00', b'not xml at all', b'<', b'<?xml',
@@ -465,7 +467,30 @@ def mutate(rng, data, pool):
             inner = '<INSTANCE CLASSNAME="C"><PROPERTY NAME="p" TYPE="string" '\
                     'EmbeddedObject="instance"><VALUE>x</VALUE></PROPERTY>'\
                     '</INSTANCE>'
-            if e.tag == 'IRETURNVALUE':
+            if rng.random() < 0.4:
+                # a reference whose key is a reference whose key is ...
+                inner = '<KEYVALUE>1</KEYVALUE>'
+                for _ in range(depth):
+                    inner = ('<VALUE.REFERENCE><INSTANCENAME CLASSNAME="C">'
+                             '<KEYBINDING NAME="k">%s</KEYBINDING>'
+                             '</INSTANCENAME></VALUE.REFERENCE>' % inner)
+                node = et.fromstring(
+                    '<INSTANCENAME CLASSNAME="C"><KEYBINDING NAME="k">%s'
+                    '</KEYBINDING></INSTANCENAME>' % inner, huge)
+                tgt = rng.choice([x for x in els
+                                  if x.tag in ('IRETURNVALUE', 'PARAMVALUE',
+                                               'RETURNVALUE')] or [e])
+                if tgt.tag == 'IRETURNVALUE':
+                    for c in list(tgt):
+                        tgt.remove(c)
+                    tgt.append(node)
+                else:
+                    for c in list(tgt):
+                        tgt.remove(c)
+                    vr = et.SubElement(tgt, 'VALUE.REFERENCE')
+                    vr.append(node)
+                kind += ':nested-reference'
+            elif e.tag == 'IRETURNVALUE':
                 s = '<VALUE.OBJECT>' * 1
                 node = et.fromstring(
                     '<X>' + '<VALUE.ARRAY>' * depth + '</VALUE.ARRAY>' * depth
